@@ -41,7 +41,7 @@ def reset():
         assert rc == 0, out
     else:
         head = subprocess.check_output("git -C /repo rev-parse HEAD", shell=True, text=True).strip()
-        sh("git checkout -q --detach %s && git reset -q --hard %s && git clean -fdq" % (head, head), cwd=WT)
+        sh("git reset -q --hard; git clean -fdq; git checkout -q --detach %s; git reset -q --hard %s" % (head, head), cwd=WT)
 
 
 def failing_tests(out):
